@@ -116,7 +116,12 @@ def strip_corner_case(task):
     files = {p: (BODY, 0o644) for p in ('f', 'b/f', 'a/b/f', 'c/f', 'd/f')}
     files['sub/keep'] = (b'k\n', 0o644)
     text = ('--- %s\n+++ %s\n' % (old, new)).encode() + b'@@ -1,4 +1,4 @@\n l0\n-l1\n+CHANGED\n l2\n l3\n'
-    ws.make_ws(root, files, {'p1.patch': text}, ['p1.patch -p%d' % strip])
+    patches, series = {'p1.patch': text}, ['p1.patch -p%d' % strip]
+    if target is None:
+        # a patch that is fine goes first: a push that is refused touches nothing, not even that
+        patches['p0.patch'] = b'--- a/sub/keep\n+++ b/sub/keep\n@@ -1 +1 @@\n-k\n+K\n'
+        series = ['p0.patch'] + series
+    ws.make_ws(root, files, patches, series)
     o = ws.run_rq(root, ['-a', '-q', '--backup', 'never'], threads=threads, use_d=use_d, trace=os.path.join(d, 'trace'))
     got = ws.tree_of(ws.snapshot(root))
     want = dict(files)
@@ -127,7 +132,7 @@ def strip_corner_case(task):
     if o.cls != ('0' if target is not None else '1') or got != want:
         changed = sorted(p for p in set(got) | set(want) if got.get(p) != files.get(p))
         out['violations'].append((tags, o.cls if o.cls not in ('0', '1') else ('not-applied' if o.cls == '1' else 'wrong-file-patched'),
-                                  {'kind': 'cli', 'files': {k: [common.b2s(v[0]), v[1]] for k, v in files.items()}, 'patches': {'p1.patch': common.b2s(text)}, 'series': ['p1.patch -p%d' % strip],
+                                  {'kind': 'cli', 'files': {k: [common.b2s(v[0]), v[1]] for k, v in files.items()}, 'patches': {k: common.b2s(v) for k, v in patches.items()}, 'series': series,
                                    'args': ['-a', '-q', '--backup', 'never'], 'threads': threads, 'series_desc': '%s: --- %s +++ %s at -p%d, %s' % (label, old, new, strip, 'with -d' if use_d else 'run inside of the workspace'),
                                    'expected': ('exit 0, %s patched' % target) if target is not None else 'exit 1, nothing touched (no name is left)', 'observed': 'exit %s, changed: %r' % (o.cls, changed), 'stderr': common.b2s(o.err[-300:])}))
     return out
